@@ -1,99 +1,134 @@
 (* C20 proofs: a collecting semantics (reachable sets of (outcome, world) pairs) for Lib.StatusLang
-   programs, proved sound for EVERY loop count, EVERY branch outcome and EVERY fault oracle whose
-   exception kinds lie in a given list (loops by a checked inductive invariant).  The property theorems
-   are then instances: the checker is evaluated on the generated pipeline by vm_compute. *)
-From Coq Require Import List Bool Arith Lia NArith.
+   programs, proved sound for EVERY loop count (per entry of every loop), EVERY branch outcome (per
+   evaluation) and EVERY fault oracle whose exception kinds lie in a given list (loops by a checked
+   inductive invariant; break / continue / return are outcomes of their own; branches on tracked data split
+   the set; a pool worker is analysed from its own initial world and its outcomes are joined into the
+   caller's worlds).  The property theorems are then instances: the checker is evaluated on the
+   generated pipeline by vm_compute. *)
+From Coq Require Import List Bool Arith Lia.
 Import ListNotations.
 From SCMO Require Import Lib.StatusLang.
 
-(* ---------------------------------------------------------------- sets of worlds as bit sets
-   A world is numbered by [code]; a set of worlds is an N whose bit [code w] says whether w is in it.
-   (Nothing below needs [code] to be injective: a collision could only make a set larger, which keeps
-   the analysis an over-approximation.) *)
-Definition bN (b : bool) : N := if b then 1%N else 0%N.
-Definition code (w : world) : N :=
-  (match st w with SNone => 0 | SUnfinished => 1 | SFail => 2 | SOk => 3 | SOther => 4 end * 32
-   + bN (ex w) * 16 + bN (co w) * 8 + bN (so w) * 4 + bN (ix w) * 2 + bN (lost w))%N.
+(* ---------------------------------------------------------------- sets of worlds: lists without
+   repetition (nothing below needs the absence of repetitions; it keeps the lists short) *)
+Definition weqb (a b : world) : bool :=
+  status_eqb (st a) (st b) && Bool.eqb (ex a) (ex b) && Bool.eqb (co a) (co b) && Bool.eqb (so a) (so b)
+  && Bool.eqb (ix a) (ix b) && Bool.eqb (lost a) (lost b) && Bool.eqb (rep a) (rep b) && Bool.eqb (tu a) (tu b)
+  && Bool.eqb (tm a) (tm b) && Bool.eqb (gu a) (gu b) && Bool.eqb (gm a) (gm b) && Bool.eqb (got a) (got b).
 
-Definition wset := N.
-Definition wmem (w : world) (S : wset) : bool := N.testbit S (code w).
-Definition wadd (w : world) (S : wset) : wset := N.setbit S (code w).
+Lemma status_eqb_eq a b : status_eqb a b = true <-> a = b.
+Proof. destruct a, b; cbn; split; intros H; try reflexivity; discriminate. Qed.
 
-Lemma wmem_union w a b : wmem w (N.lor a b) = wmem w a || wmem w b.
-Proof. unfold wmem. apply N.lor_spec. Qed.
-
-Lemma wmem_union_l w a b : wmem w a = true -> wmem w (N.lor a b) = true.
-Proof. intros H. rewrite wmem_union, H. reflexivity. Qed.
-Lemma wmem_union_r w a b : wmem w b = true -> wmem w (N.lor a b) = true.
-Proof. intros H. rewrite wmem_union, H. apply orb_true_r. Qed.
-
-Definition wsubset (a b : wset) : bool := N.eqb (N.lor a b) b.
-Lemma wsubset_spec a b : wsubset a b = true -> forall w, wmem w a = true -> wmem w b = true.
+Lemma weqb_eq a b : weqb a b = true -> a = b.
 Proof.
-  unfold wsubset. intros H w Hw. apply N.eqb_eq in H. rewrite <- H. apply wmem_union_l. exact Hw.
+  unfold weqb. intros H.
+  repeat (apply andb_prop in H; destruct H as [H ?]).
+  destruct a as [a1 a2 a3 a4 a5 a6 a7 a8 a9 a10 a11 a12], b as [b1 b2 b3 b4 b5 b6 b7 b8 b9 b10 b11 b12].
+  cbn [st ex co so ix lost rep tu tm gu gm got] in *.
+  apply status_eqb_eq in H.
+  repeat match goal with E : Bool.eqb _ _ = true |- _ => apply eqb_prop in E end.
+  subst. reflexivity.
 Qed.
 
+Lemma weqb_refl a : weqb a a = true.
+Proof.
+  unfold weqb. rewrite !eqb_reflx.
+  replace (status_eqb (st a) (st a)) with true by (symmetry; apply status_eqb_eq; reflexivity). reflexivity.
+Qed.
+
+Definition wset := list world.
+Definition wmem (w : world) (S : wset) : bool := existsb (weqb w) S.
+
+Lemma wmem_In w S : wmem w S = true <-> In w S.
+Proof.
+  unfold wmem. rewrite existsb_exists. split.
+  - intros [x [Hin He]]. apply weqb_eq in He. subst. exact Hin.
+  - intros H. exists w. split; [exact H | apply weqb_refl].
+Qed.
+
+Definition wadd (w : world) (S : wset) : wset := if wmem w S then S else w :: S.
+Lemma wadd_In w x S : In x (wadd w S) <-> x = w \/ In x S.
+Proof.
+  unfold wadd. destruct (wmem w S) eqn:E.
+  - apply wmem_In in E. split; [intros H; right; exact H | intros [->|H]; assumption].
+  - cbn. split; intros [H|H]; auto.
+Qed.
+
+Definition wunion (a b : wset) : wset := fold_right wadd b a.
+Lemma wunion_In x a b : In x (wunion a b) <-> In x a \/ In x b.
+Proof.
+  induction a as [|y a IH]; cbn [wunion fold_right].
+  - split; [intros H; right; exact H | intros [[]|H]; exact H].
+  - fold (wunion a b). rewrite wadd_In, IH. cbn. split.
+    + intros [->|[H|H]]; auto.
+    + intros [[->|H]|H]; auto.
+Qed.
+
+Lemma wmem_union_l w a b : wmem w a = true -> wmem w (wunion a b) = true.
+Proof. rewrite !wmem_In, wunion_In. auto. Qed.
+Lemma wmem_union_r w a b : wmem w b = true -> wmem w (wunion a b) = true.
+Proof. rewrite !wmem_In, wunion_In. auto. Qed.
+
+Definition image (g : world -> world) (S : wset) : wset := fold_right (fun w acc => wadd (g w) acc) [] S.
+Lemma image_In g S w : In w S -> In (g w) (image g S).
+Proof.
+  induction S as [|x S IH]; intros H; [contradiction H|]. cbn [image fold_right]. fold (image g S).
+  apply wadd_In. destruct H as [->|H]; [left; reflexivity | right; apply IH; exact H].
+Qed.
+Lemma wmem_image g S w : wmem w S = true -> wmem (g w) (image g S) = true.
+Proof. rewrite !wmem_In. apply image_In. Qed.
+
+(* { g a b | a in A, b in B } *)
+Definition image2 (g : world -> world -> world) (A B : wset) : wset :=
+  fold_right (fun a acc => wunion (image (g a) B) acc) [] A.
+Lemma wmem_image2 g A B a b : wmem a A = true -> wmem b B = true -> wmem (g a b) (image2 g A B) = true.
+Proof.
+  rewrite !wmem_In. intros HA HB. induction A as [|x A IH]; [contradiction HA|].
+  cbn [image2 fold_right]. fold (image2 g A B). apply wunion_In.
+  destruct HA as [->|HA]; [left; apply image_In; exact HB | right; apply IH; exact HA].
+Qed.
+
+Definition wsubset (a b : wset) : bool := forallb (fun w => wmem w b) a.
+Lemma wsubset_spec a b : wsubset a b = true -> forall w, wmem w a = true -> wmem w b = true.
+Proof.
+  unfold wsubset. rewrite forallb_forall. intros H w Hw. apply H. apply wmem_In. exact Hw.
+Qed.
+
+Definition wempty (S : wset) : bool := match S with [] => true | _ => false end.
+Lemma wempty_false w S : wmem w S = true -> wempty S = false.
+Proof. destruct S; [discriminate | reflexivity]. Qed.
+
+Lemma wmem_filter p S w : wmem w S = true -> p w = true -> wmem w (filter p S) = true.
+Proof. rewrite !wmem_In. intros H Hp. apply filter_In. split; assumption. Qed.
+
+(* the worlds with ghost and data fields in their initial state *)
 Definition all_status := [SNone; SUnfinished; SFail; SOk; SOther].
 Definition bools := [true; false].
-Definition all_worlds : list world :=
-  flat_map (fun s => flat_map (fun a => flat_map (fun b => flat_map (fun c => flat_map (fun d =>
-    map (fun l => mkW s a b c d l) bools) bools) bools) bools) bools) all_status.
+Definition base_worlds : list world :=
+  flat_map (fun s => flat_map (fun a => flat_map (fun b => flat_map (fun c =>
+    map (fun d => mkW s a b c d false false false false false false false) bools) bools) bools) bools) all_status.
 
 Lemma in_bools b : In b bools.
 Proof. destruct b; cbn; tauto. Qed.
 
-Lemma all_worlds_complete w : In w all_worlds.
+Lemma base_worlds_complete w : aux_clear w = true -> In w base_worlds.
 Proof.
-  destruct w as [s a b c d l]. unfold all_worlds.
+  destruct w as [s a b c d l r u m g1 g2 g]. unfold aux_clear. cbn [lost rep tu tm gu gm got].
+  intros H. apply negb_true_iff in H.
+  repeat (apply orb_false_elim in H; destruct H as [H ?]). subst.
+  unfold base_worlds.
   apply in_flat_map. exists s. split; [destruct s; cbn; tauto|].
   apply in_flat_map. exists a. split; [apply in_bools|].
   apply in_flat_map. exists b. split; [apply in_bools|].
   apply in_flat_map. exists c. split; [apply in_bools|].
-  apply in_flat_map. exists d. split; [apply in_bools|].
-  apply in_map. apply in_bools.
+  apply in_map_iff. exists d. split; [reflexivity | apply in_bools].
 Qed.
 
-(* { g w | sel w } *)
-Definition collect_from (sel : world -> bool) (g : world -> world) (l : list world) (acc : wset) : wset :=
-  fold_left (fun acc w => if sel w then wadd (g w) acc else acc) l acc.
-Definition collect (sel : world -> bool) (g : world -> world) : wset := collect_from sel g all_worlds 0%N.
+Definition of_pred (p : world -> bool) : wset := filter p base_worlds.
+Lemma wmem_of_pred p w : aux_clear w = true -> p w = true -> wmem w (of_pred p) = true.
+Proof. intros Ha Hp. apply wmem_In. apply filter_In. split; [apply base_worlds_complete; exact Ha | exact Hp]. Qed.
 
-Lemma collect_mono sel g l : forall acc i, N.testbit acc i = true -> N.testbit (collect_from sel g l acc) i = true.
-Proof.
-  induction l as [|x l IH]; intros acc i H; cbn [collect_from fold_left].
-  - exact H.
-  - apply IH. destruct (sel x); [|exact H]. unfold wadd. apply N.setbit_iff. right. exact H.
-Qed.
-
-Lemma collect_from_spec sel g l : forall acc w, In w l -> sel w = true -> wmem (g w) (collect_from sel g l acc) = true.
-Proof.
-  induction l as [|x l IH]; intros acc w Hin Hs; [contradiction Hin|].
-  cbn [collect_from fold_left]. destruct Hin as [->|Hin].
-  - rewrite Hs. unfold wmem. apply collect_mono. unfold wadd. apply N.setbit_iff. left. reflexivity.
-  - apply IH; assumption.
-Qed.
-
-Lemma collect_spec sel g w : sel w = true -> wmem (g w) (collect sel g) = true.
-Proof. intros H. apply collect_from_spec; [apply all_worlds_complete | exact H]. Qed.
-
-Definition image (g : world -> world) (S : wset) : wset := collect (fun w => wmem w S) g.
-Lemma wmem_image g S w : wmem w S = true -> wmem (g w) (image g S) = true.
-Proof. intros H. unfold image. apply (collect_spec (fun w => wmem w S) g w H). Qed.
-
-Definition of_pred (p : world -> bool) : wset := collect p (fun w => w).
-Lemma wmem_of_pred p w : p w = true -> wmem w (of_pred p) = true.
-Proof. intros H. exact (collect_spec p (fun w => w) w H). Qed.
-
-(* one set per exception kind *)
-Record r7 := mkR7 { rRuntime : wset; rValue : wset; rOS : wset; rTimeout : wset; rMemory : wset; rOther : wset; rBase : wset }.
-Definition getk (k : ekind) (r : r7) : wset :=
-  match k with KRuntime => rRuntime r | KValue => rValue r | KOS => rOS r | KTimeout => rTimeout r
-             | KMemory => rMemory r | KOther => rOther r | KBase => rBase r end.
-Definition mk7 (f : ekind -> wset) : r7 :=
-  mkR7 (f KRuntime) (f KValue) (f KOS) (f KTimeout) (f KMemory) (f KOther) (f KBase).
-Lemma getk_mk7 k f : getk k (mk7 f) = f k.
-Proof. destruct k; reflexivity. Qed.
-
+(* ---------------------------------------------------------------- outcomes *)
 Definition ekind_eqb (a b : ekind) : bool :=
   match a, b with
   | KRuntime, KRuntime | KValue, KValue | KOS, KOS | KTimeout, KTimeout | KMemory, KMemory
@@ -106,80 +141,135 @@ Definition kin (k : ekind) (ks : list ekind) : bool := existsb (ekind_eqb k) ks.
 Lemma kin_In k ks : In k ks -> kin k ks = true.
 Proof. intros H. unfold kin. apply existsb_exists. exists k. split; [exact H | apply ekind_eqb_eq; reflexivity]. Qed.
 
-Definition big_or (f : ekind -> wset) (l : list ekind) : wset := fold_right (fun k acc => N.lor (f k) acc) 0%N l.
+Lemma all_kinds_complete k : In k all_kinds.
+Proof. destruct k; cbn; tauto. Qed.
+
+Definition all_res : list res :=
+  [RNormal; RBreak; RContinue; RReturn VPath; RReturn VNone] ++ map RRaised all_kinds.
+Lemma all_res_complete r : In r all_res.
+Proof. destruct r as [|k| | |v]; [| destruct k | | | destruct v]; cbn; tauto. Qed.
+
+(* one set per exception kind *)
+Record r7 := mkR7 { rRuntime : wset; rValue : wset; rOS : wset; rTimeout : wset; rMemory : wset; rOther : wset; rBase : wset }.
+Definition getk (k : ekind) (r : r7) : wset :=
+  match k with KRuntime => rRuntime r | KValue => rValue r | KOS => rOS r | KTimeout => rTimeout r
+             | KMemory => rMemory r | KOther => rOther r | KBase => rBase r end.
+Definition mk7 (f : ekind -> wset) : r7 :=
+  mkR7 (f KRuntime) (f KValue) (f KOS) (f KTimeout) (f KMemory) (f KOther) (f KBase).
+Lemma getk_mk7 k f : getk k (mk7 f) = f k.
+Proof. destruct k; reflexivity. Qed.
+
+(* collecting semantics: for every way a program can end, the worlds in which it can end that way *)
+Record ares := mkA { aN : wset;    (* normally *)
+                     aR : r7;      (* raising kind k *)
+                     aB : wset;    (* break *)
+                     aC : wset;    (* continue *)
+                     aP : wset;    (* return <path> *)
+                     aQ : wset;    (* return None *)
+                     okf : bool }. (* every loop invariant inside was checked *)
+
+Definition getr (r : res) (a : ares) : wset :=
+  match r with
+  | RNormal => aN a | RRaised k => getk k (aR a) | RBreak => aB a | RContinue => aC a
+  | RReturn VPath => aP a | RReturn VNone => aQ a
+  end.
+Definition mkres (f : res -> wset) (ok : bool) : ares :=
+  mkA (f RNormal) (mk7 (fun k => f (RRaised k))) (f RBreak) (f RContinue) (f (RReturn VPath)) (f (RReturn VNone)) ok.
+Lemma getr_mkres r f ok : getr r (mkres f ok) = f r.
+Proof. destruct r as [|k| | |v]; [| destruct k | | | destruct v]; reflexivity. Qed.
+Lemma okf_mkres f ok : okf (mkres f ok) = ok.
+Proof. reflexivity. Qed.
+
+Definition in_res (a : ares) (r : res) (w : world) : Prop := wmem w (getr r a) = true.
+
+Definition big_or (f : ekind -> wset) (l : list ekind) : wset := fold_right (fun k acc => wunion (f k) acc) [] l.
 Lemma big_or_spec f l k w : In k l -> wmem w (f k) = true -> wmem w (big_or f l) = true.
 Proof.
   induction l as [|x l IH]; intros Hin Hw; [contradiction Hin|]. cbn [big_or fold_right].
   destruct Hin as [->|Hin]; [apply wmem_union_l; exact Hw | apply wmem_union_r; apply IH; assumption].
 Qed.
 
-Lemma status_eqb_eq a b : status_eqb a b = true <-> a = b.
-Proof. destruct a, b; cbn; split; intros H; try reflexivity; discriminate. Qed.
-
-Lemma all_kinds_complete k : In k all_kinds.
-Proof. destruct k; cbn; tauto. Qed.
-
-(* ---------------------------------------------------------------- collecting semantics *)
-(* aN: worlds in which the program can end normally; aR k: worlds in which it can end raising kind k *)
-Record ares := mkA { aN : wset; aR : r7; okf : bool }.
-
-Definition in_res (a : ares) (r : res) (w : world) : Prop :=
-  match r with RNormal => wmem w (aN a) = true | RRaised k => wmem w (getk k (aR a)) = true end.
-
-Definition mark_w (b : bool) (w : world) : world :=
-  if b then mkW (st w) (ex w) (co w) (so w) (ix w) true else w.
-
 Section Analysis.
   Variable ks : list ekind.      (* the exception kinds a failing step may raise *)
 
   Definition r_step (e : eff) (S : wset) : ares :=
-    let bad := N.lor S (image (partial e) S) in
-    mkA (image (apply e) S) (mk7 (fun k => if kin k ks then bad else 0%N)) true.
+    let bad := wunion S (image (partial e) S) in
+    let good := image (apply e) S in
+    mkres (fun r => match r with RNormal => good | RRaised k => if kin k ks then bad else [] | _ => [] end) true.
 
   Definition seq_res (F G : wset -> ares) (S : wset) : ares :=
     let ra := F S in
     let rb := G (aN ra) in
-    mkA (aN rb) (mk7 (fun k => N.lor (getk k (aR ra)) (getk k (aR rb)))) (okf ra && okf rb).
+    mkres (fun r => match r with RNormal => aN rb | _ => wunion (getr r ra) (getr r rb) end) (okf ra && okf rb).
 
   Definition loop_one (h : eff) (F : wset -> ares) : wset -> ares := seq_res (r_step h) F.
+  (* the worlds after which the loop goes on: the body ended normally or by continue *)
+  Definition nc (a : ares) : wset := wunion (aN a) (aC a).
 
   Fixpoint grow (fuel : nat) (F : wset -> ares) (I : wset) : wset :=
     match fuel with
     | O => I
-    | S k => let I' := N.lor (aN (F I)) I in if N.eqb I' I then I else grow k F I'
+    | S k => let n := nc (F I) in if wsubset n I then I else grow k F (wunion n I)
     end.
 
-  Definition loop_fuel : nat := 200.
+  Definition loop_fuel : nat := 400.
 
   Definition loop_res (h : eff) (F : wset -> ares) (S : wset) : ares :=
     let I := grow loop_fuel (loop_one h F) S in
     let r1 := loop_one h F I in
     let rl := r_step ENop I in
-    mkA (aN rl) (mk7 (fun k => N.lor (getk k (aR r1)) (getk k (aR rl))))
-        (okf r1 && wsubset (aN r1) I && wsubset S I).
+    mkres (fun r => match r with
+                    | RNormal => wunion (aN rl) (aB r1)
+                    | RBreak | RContinue => []
+                    | RRaised _ => wunion (getr r r1) (getr r rl)
+                    | RReturn _ => getr r r1
+                    end)
+          (okf r1 && wsubset (nc r1) I && wsubset S I).
 
   (* the handler's analysis per exception kind, computed once per kind *)
   Definition kidx (k : ekind) : nat :=
     match k with KRuntime => 0 | KValue => 1 | KOS => 2 | KTimeout => 3 | KMemory => 4 | KOther => 5 | KBase => 6 end.
-  Definition no_res : ares := mkA 0%N (mk7 (fun _ => 0%N)) true.
+  Definition no_res : ares := mkres (fun _ => []) true.
   Definition per_kind (g : ekind -> ares) : ekind -> ares :=
     let l := map g all_kinds in fun k => nth (kidx k) l no_res.
   Lemma per_kind_spec g k : per_kind g k = g k.
   Proof. destruct k; reflexivity. Qed.
 
-  Definition try_res (mkb reraise : bool) (hs : list hclass) (F H : wset -> ares) (S : wset) : ares :=
-    let rb := F S in
+  Definition try_res (mkb rp reraise : bool) (hs : list hclass) (F H : wset -> ares) (S : wset) : ares :=
+    let rb := F (image (commit_w rp) S) in
     let caught := filter (catches hs) all_kinds in
-    let hk := per_kind (fun k => if catches hs k then H (image (mark_w mkb) (getk k (aR rb))) else no_res) in
-    mkA (N.lor (aN rb) (if reraise then 0%N else big_or (fun k => aN (hk k)) caught))
-        (mk7 (fun k' => N.lor (if catches hs k' then (if reraise then aN (hk k') else 0%N) else getk k' (aR rb))
-                              (big_or (fun k => getk k' (aR (hk k))) caught)))
-        (okf rb && forallb (fun k => okf (hk k)) caught).
+    let hk := per_kind (fun k => if catches hs k then H (image (mark_w mkb rp) (getk k (aR rb))) else no_res) in
+    mkres (fun r => match r with
+                    | RNormal => wunion (image (commit_w rp) (aN rb))
+                                        (if reraise then [] else big_or (fun k => aN (hk k)) caught)
+                    | RRaised k' =>
+                        wunion (if catches hs k' then (if reraise then aN (hk k') else []) else getk k' (aR rb))
+                               (big_or (fun k => getk k' (aR (hk k))) caught)
+                    | _ => wunion (image (commit_w rp) (getr r rb)) (big_or (fun k => getr r (hk k)) caught)
+                    end)
+          (okf rb && forallb (fun k => okf (hk k)) caught).
 
   Definition choice_res (F G : wset -> ares) (S : wset) : ares :=
     let ra := F S in
     let rb := G S in
-    mkA (N.lor (aN ra) (aN rb)) (mk7 (fun k => N.lor (getk k (aR ra)) (getk k (aR rb)))) (okf ra && okf rb).
+    mkres (fun r => wunion (getr r ra) (getr r rb)) (okf ra && okf rb).
+
+  Definition ifw_res (g : guard) (F G : wset -> ares) (S : wset) : ares :=
+    let ra := F (filter (guard_holds g) S) in
+    let rb := G (filter (fun w => negb (guard_holds g w)) S) in
+    mkres (fun r => wunion (getr r ra) (getr r rb)) (okf ra && okf rb).
+
+  (* A = the analysis of the worker from its own initial world *)
+  Definition spawn_res (A : ares) (S : wset) : ares :=
+    let fails := image spawn_fail S in
+    let junk := negb (wempty (aN A) && wempty (aB A) && wempty (aC A)) in
+    mkres (fun r => match r with
+                    | RNormal => wunion (image2 (join VPath) (aP A) S) (image2 (join VNone) (aQ A) S)
+                    | RRaised k => wunion (if wempty (getk k (aR A)) then [] else fails)
+                                          (match k with KOther => if junk then fails else [] | _ => [] end)
+                    | _ => []
+                    end)
+          (okf A).
 
   (* [sound F run]: F over-approximates what [run] can do from any configuration whose world is in S *)
   Definition sound (F : wset -> ares) (run : cfg -> res * cfg) : Prop :=
@@ -190,212 +280,336 @@ Section Analysis.
 
   Lemma step_sound l e : sound (r_step e) (step f l e).
   Proof.
-    intros S s r s' _ Hin Hst. unfold step in Hst. unfold r_step, in_res.
+    intros S s r s' _ Hin Hst. unfold step in Hst. unfold r_step, in_res. rewrite getr_mkres.
     pose proof (f_kinds (cn s)) as Hk.
-    destruct (f (cn s)) as [|k|k]; inversion Hst; subst; clear Hst; cbn [wd aN aR].
+    destruct (f (cn s)) as [|k|k]; inversion Hst; subst; clear Hst; cbn [wd].
     - apply wmem_image. exact Hin.
-    - rewrite getk_mk7, (kin_In _ _ Hk). apply wmem_union_l. exact Hin.
-    - rewrite getk_mk7, (kin_In _ _ Hk). apply wmem_union_r. apply wmem_image. exact Hin.
+    - rewrite (kin_In _ _ Hk). apply wmem_union_l. exact Hin.
+    - rewrite (kin_In _ _ Hk). apply wmem_union_r. apply wmem_image. exact Hin.
+  Qed.
+
+  Lemma step_res l e s r s' : step f l e s = (r, s') -> r = RNormal \/ exists k, r = RRaised k.
+  Proof.
+    unfold step. destruct (f (cn s)) as [|k|k]; intros H; inversion H; subst; [left; reflexivity | right; eexists; reflexivity ..].
   Qed.
 
   Lemma seq_sound F G ra rb : sound F ra -> sound G rb ->
     sound (seq_res F G) (fun s => let (r, s1) := ra s in match r with RNormal => rb s1 | _ => (r, s1) end).
   Proof.
-    intros HF HG S s r s' Hok Hin Hex. unfold seq_res in *. cbn zeta in *. cbn [okf] in Hok.
+    intros HF HG S s r s' Hok Hin Hex. unfold seq_res in *. cbn zeta in *. rewrite okf_mkres in Hok.
     apply andb_prop in Hok. destruct Hok as [Hoka Hokb].
     destruct (ra s) as [r1 s1] eqn:Ha.
-    pose proof (HF S s r1 s1 Hoka Hin Ha) as H1.
-    destruct r1 as [|k].
-    - cbn [in_res] in H1. pose proof (HG _ s1 r s' Hokb H1 Hex) as H2.
-      destruct r as [|k2]; unfold in_res in *; cbn [aN aR] in *; [exact H2|].
-      rewrite getk_mk7. apply wmem_union_r. exact H2.
-    - inversion Hex; subst. unfold in_res in *. cbn [aR]. rewrite getk_mk7. apply wmem_union_l. exact H1.
+    pose proof (HF S s r1 s1 Hoka Hin Ha) as H1. unfold in_res in *. rewrite getr_mkres.
+    destruct r1 as [|k| | |v].
+    - cbn [getr] in H1. pose proof (HG _ s1 r s' Hokb H1 Hex) as H2.
+      destruct r; [exact H2 | apply wmem_union_r; exact H2 ..].
+    - inversion Hex; subst. apply wmem_union_l. exact H1.
+    - inversion Hex; subst. apply wmem_union_l. exact H1.
+    - inversion Hex; subst. apply wmem_union_l. exact H1.
+    - inversion Hex; subst. apply wmem_union_l. exact H1.
   Qed.
 
+  (* one round of a loop whose invariant I is closed under "the body ends normally or by continue" *)
   Lemma iter_sound (one : cfg -> res * cfg) (A : ares) (I : wset) :
-    (forall s r s', wmem (wd s) I = true -> one s = (r, s') -> in_res A r (wd s')) ->
-    (forall x, wmem x (aN A) = true -> wmem x I = true) ->
+    (forall s r s', wmem (wd s) I = true -> one s = (r, s') ->
+        match r with RNormal => wmem (wd s') I = true | RContinue => False | _ => wmem (wd s') (getr r A) = true end) ->
     forall n s r s', wmem (wd s) I = true -> iter n one s = (r, s') ->
-      match r with RNormal => wmem (wd s') I = true | RRaised k => wmem (wd s') (getk k (aR A)) = true end.
+      match r with RNormal => wmem (wd s') I = true | RContinue => False | _ => wmem (wd s') (getr r A) = true end.
   Proof.
-    intros Hone Hsub. induction n as [|n IH]; intros s r s' Hin Hit; cbn [iter] in Hit.
+    intros Hone. induction n as [|n IH]; intros s r s' Hin Hit; cbn [iter] in Hit.
     - inversion Hit; subst. assumption.
     - destruct (one s) as [r0 s0] eqn:H1. specialize (Hone _ _ _ Hin H1).
-      destruct r0 as [|k].
-      + apply (IH s0); [apply Hsub; exact Hone | assumption].
-      + inversion Hit; subst. exact Hone.
+      destruct r0 as [|k| | |v]; try (inversion Hit; subst; exact Hone).
+      apply (IH s0); assumption.
   Qed.
 
   Lemma loop_sound n l h F rb : sound F rb ->
+    forall id,
     sound (loop_res h F)
       (fun s => let (r, s1) := iter n (fun s0 => let (r0, s0') := step f l h s0 in
-                                       match r0 with RNormal => rb s0' | _ => (r0, s0') end) s in
-                match r with RNormal => step f l ENop s1 | _ => (r, s1) end).
+                                       match r0 with
+                                       | RNormal => let (rb0, sb) := rb s0' in (cont_to_normal rb0, sb)
+                                       | _ => (r0, s0')
+                                       end) (mkC (cn s) (wd s) (tr s) (id :: en s)) in
+                match r with RNormal => step f l ENop s1 | RBreak => (RNormal, s1) | _ => (r, s1) end).
   Proof.
-    intros HF S s r s' Hok Hin Hex. unfold loop_res in *. cbn zeta in *.
+    intros HF id S s r s' Hok Hin Hex. unfold loop_res in *. cbn zeta in *.
     revert Hok. generalize (grow loop_fuel (loop_one h F) S). intros I Hok.
-    cbn [okf] in Hok. apply andb_prop in Hok. destruct Hok as [Hok HsubS].
+    rewrite okf_mkres in Hok. apply andb_prop in Hok. destruct Hok as [Hok HsubS].
     apply andb_prop in Hok. destruct Hok as [Hok1 HsubN].
     pose proof (wsubset_spec _ _ HsubS) as HS. pose proof (wsubset_spec _ _ HsubN) as HN.
     pose proof (seq_sound _ _ _ _ (step_sound l h) HF) as Hone. fold (loop_one h F) in Hone.
-    match type of Hex with context [iter ?k ?o s] => destruct (iter k o s) as [ri si] eqn:Hit end.
+    match type of Hex with context [iter ?k ?o ?s0] => destruct (iter k o s0) as [ri si] eqn:Hit end.
+    set (A := loop_one h F I) in *.
     assert (Hone' : forall s0 r0 s0', wmem (wd s0) I = true ->
-              (let (r1, s1) := step f l h s0 in match r1 with RNormal => rb s1 | _ => (r1, s1) end) = (r0, s0') ->
-              in_res (loop_one h F I) r0 (wd s0')).
-    { intros s0 r0 s0' Hin0 H0. apply (Hone I s0 r0 s0'); [exact Hok1 | exact Hin0 | exact H0]. }
-    pose proof (iter_sound _ (loop_one h F I) I Hone' HN n s ri si (HS _ Hin) Hit) as Hres.
-    destruct ri as [|k].
-    - pose proof (step_sound l ENop I si r s' eq_refl Hres Hex) as Hl.
-      destruct r as [|k2]; unfold in_res in *; cbn [aN aR] in *; [exact Hl|].
-      rewrite getk_mk7. apply wmem_union_r. exact Hl.
-    - inversion Hex; subst. unfold in_res. cbn [aR]. rewrite getk_mk7. apply wmem_union_l. exact Hres.
+              (let (r1, s1) := step f l h s0 in
+               match r1 with RNormal => let (rb0, sb) := rb s1 in (cont_to_normal rb0, sb) | _ => (r1, s1) end) = (r0, s0') ->
+              match r0 with RNormal => wmem (wd s0') I = true | RContinue => False
+                          | _ => wmem (wd s0') (getr r0 A) = true end).
+    { intros s0 r0 s0' Hin0 H0.
+      (* the raw outcome of one round, before continue is turned into normal *)
+      assert (Hraw : exists rr, (let (r1, s1) := step f l h s0 in
+                                 match r1 with RNormal => rb s1 | _ => (r1, s1) end) = (rr, s0')
+                                /\ r0 = cont_to_normal rr).
+      { destruct (step f l h s0) as [r1 s1] eqn:Hs1.
+        destruct (step_res _ _ _ _ _ Hs1) as [->|[k ->]].
+        - destruct (rb s1) as [rb0 sb]. inversion H0; subst. exists rb0. split; reflexivity.
+        - inversion H0; subst. eexists. split; reflexivity. }
+      destruct Hraw as [rr [Hrr ->]].
+      pose proof (Hone I s0 rr s0' Hok1 Hin0 Hrr) as Hr. unfold in_res in Hr. fold A in Hr.
+      destruct rr as [|k| | |v]; cbn [cont_to_normal].
+      - apply HN. unfold nc. apply wmem_union_l. exact Hr.
+      - exact Hr.
+      - exact Hr.
+      - apply HN. unfold nc. apply wmem_union_r. exact Hr.
+      - exact Hr. }
+    assert (Hin0 : wmem (wd (mkC (cn s) (wd s) (tr s) (id :: en s))) I = true) by (cbn [wd]; apply HS; exact Hin).
+    pose proof (iter_sound _ A I Hone' n _ ri si Hin0 Hit) as Hres.
+    unfold in_res. rewrite getr_mkres.
+    destruct ri as [|k| | |v].
+    - pose proof (step_sound l ENop I si r s' eq_refl Hres Hex) as Hl. unfold in_res in Hl.
+      destruct r as [|k2| | |v2].
+      + apply wmem_union_l. exact Hl.
+      + apply wmem_union_r. exact Hl.
+      + unfold r_step in Hl. rewrite getr_mkres in Hl. discriminate Hl.
+      + unfold r_step in Hl. rewrite getr_mkres in Hl. discriminate Hl.
+      + unfold r_step in Hl. rewrite getr_mkres in Hl. discriminate Hl.
+    - inversion Hex; subst. apply wmem_union_l. exact Hres.
+    - inversion Hex; subst. apply wmem_union_r. exact Hres.
+    - contradiction Hres.
+    - inversion Hex; subst. exact Hres.
   Qed.
 
-  Lemma try_sound mkb reraise hs F H rb rh : sound F rb -> sound H rh ->
-    sound (try_res mkb reraise hs F H)
-      (fun s => let (r, s1) := rb s in
+  Lemma wd_commit rp s : wd (commit rp s) = commit_w rp (wd s).
+  Proof. reflexivity. Qed.
+  Lemma wd_mark b rp s : wd (mark b rp s) = mark_w b rp (wd s).
+  Proof. reflexivity. Qed.
+
+  Lemma try_sound mkb rp reraise hs F H rb rh : sound F rb -> sound H rh ->
+    sound (try_res mkb rp reraise hs F H)
+      (fun s => let (r, s1) := rb (commit rp s) in
                 match r with
-                | RNormal => (RNormal, s1)
                 | RRaised k =>
                     if catches hs k then
-                      let (r2, s2) := rh (mark mkb s1) in
+                      let (r2, s2) := rh (mark mkb rp s1) in
                       match r2 with RNormal => (if reraise then r else RNormal, s2) | _ => (r2, s2) end
                     else (r, s1)
+                | _ => (r, commit rp s1)
                 end).
   Proof.
-    intros HF HH S s r s' Hok Hin Hex. unfold try_res in *. cbn zeta in *. cbn [okf] in Hok.
+    intros HF HH S s r s' Hok Hin Hex. unfold try_res in *. cbn zeta in *. rewrite okf_mkres in Hok.
     apply andb_prop in Hok. destruct Hok as [Hokb HokH].
-    destruct (rb s) as [r1 sb] eqn:Hb.
-    pose proof (HF S s r1 sb Hokb Hin Hb) as H1.
-    destruct r1 as [|k].
-    - inversion Hex; subst. unfold in_res in *. cbn [aN]. apply wmem_union_l. exact H1.
-    - cbn [in_res] in H1. destruct (catches hs k) eqn:Hc.
+    destruct (rb (commit rp s)) as [r1 sb] eqn:Hb.
+    assert (Hin1 : wmem (wd (commit rp s)) (image (commit_w rp) S) = true).
+    { rewrite wd_commit. apply wmem_image. exact Hin. }
+    pose proof (HF _ _ r1 sb Hokb Hin1 Hb) as H1. unfold in_res in *. rewrite getr_mkres.
+    set (S1 := image (commit_w rp) S) in *.
+    destruct r1 as [|k| | |v].
+    - inversion Hex; subst. apply wmem_union_l. rewrite wd_commit. apply wmem_image. exact H1.
+    - cbn [getr] in H1. destruct (catches hs k) eqn:Hc.
       + assert (Hk : In k (filter (catches hs) all_kinds)).
         { apply filter_In. split; [apply all_kinds_complete | exact Hc]. }
-        set (g := fun k0 => if catches hs k0 then H (image (mark_w mkb) (getk k0 (aR (F S)))) else no_res) in *.
-        assert (Hg : per_kind g k = H (image (mark_w mkb) (getk k (aR (F S))))).
+        set (g := fun k0 => if catches hs k0 then H (image (mark_w mkb rp) (getk k0 (aR (F S1)))) else no_res) in *.
+        assert (Hg : per_kind g k = H (image (mark_w mkb rp) (getk k (aR (F S1))))).
         { rewrite per_kind_spec. unfold g. rewrite Hc. reflexivity. }
         rewrite forallb_forall in HokH. specialize (HokH k Hk). rewrite Hg in HokH.
-        destruct (rh (mark mkb sb)) as [r2 s2] eqn:Hh.
-        assert (Hmk : wd (mark mkb sb) = mark_w mkb (wd sb)).
-        { unfold mark, mark_w. destruct mkb; reflexivity. }
-        assert (Hin2 : wmem (wd (mark mkb sb)) (image (mark_w mkb) (getk k (aR (F S)))) = true).
-        { rewrite Hmk. apply wmem_image. exact H1. }
-        pose proof (HH _ _ r2 s2 HokH Hin2 Hh) as H2. rewrite <- Hg in H2.
-        destruct r2 as [|k2]; inversion Hex; subst; clear Hex.
-        * cbn [in_res] in H2. destruct reraise; unfold in_res; cbn [aN aR].
-          -- rewrite getk_mk7, Hc. apply wmem_union_l. exact H2.
+        destruct (rh (mark mkb rp sb)) as [r2 s2] eqn:Hh.
+        assert (Hin2 : wmem (wd (mark mkb rp sb)) (image (mark_w mkb rp) (getk k (aR (F S1)))) = true).
+        { rewrite wd_mark. apply wmem_image. exact H1. }
+        pose proof (HH _ _ r2 s2 HokH Hin2 Hh) as H2. unfold in_res in H2. rewrite <- Hg in H2.
+        destruct r2 as [|k2| | |v2]; inversion Hex; subst; clear Hex.
+        * cbn [getr] in H2. destruct reraise.
+          -- rewrite Hc. apply wmem_union_l. exact H2.
           -- apply wmem_union_r. exact (big_or_spec (fun k0 => aN (per_kind g k0)) _ k _ Hk H2).
-        * cbn [in_res] in H2. unfold in_res. cbn [aR]. rewrite getk_mk7. apply wmem_union_r.
+        * cbn [getr] in H2. apply wmem_union_r.
           exact (big_or_spec (fun k0 => getk k2 (aR (per_kind g k0))) _ k _ Hk H2).
-      + inversion Hex; subst. unfold in_res. cbn [aR]. rewrite getk_mk7, Hc. apply wmem_union_l. exact H1.
+        * apply wmem_union_r. exact (big_or_spec (fun k0 => getr RBreak (per_kind g k0)) _ k _ Hk H2).
+        * apply wmem_union_r. exact (big_or_spec (fun k0 => getr RContinue (per_kind g k0)) _ k _ Hk H2).
+        * apply wmem_union_r. exact (big_or_spec (fun k0 => getr (RReturn v2) (per_kind g k0)) _ k _ Hk H2).
+      + inversion Hex; subst. rewrite Hc. apply wmem_union_l. exact H1.
+    - inversion Hex; subst. apply wmem_union_l. rewrite wd_commit. apply wmem_image. exact H1.
+    - inversion Hex; subst. apply wmem_union_l. rewrite wd_commit. apply wmem_image. exact H1.
+    - inversion Hex; subst. apply wmem_union_l. rewrite wd_commit. apply wmem_image. exact H1.
   Qed.
 
   Lemma choice_sound_l F G ra : sound F ra -> sound (choice_res F G) ra.
   Proof.
-    intros HF S s r s' Hok Hin Hex. unfold choice_res in *. cbn zeta in *. cbn [okf] in Hok.
+    intros HF S s r s' Hok Hin Hex. unfold choice_res in *. cbn zeta in *. rewrite okf_mkres in Hok.
     apply andb_prop in Hok. destruct Hok as [Hoka Hokb].
-    pose proof (HF S s r s' Hoka Hin Hex) as H1.
-    destruct r as [|k]; unfold in_res in *; cbn [aN aR]; [|rewrite getk_mk7]; apply wmem_union_l; exact H1.
+    pose proof (HF S s r s' Hoka Hin Hex) as H1. unfold in_res in *. rewrite getr_mkres.
+    apply wmem_union_l. exact H1.
   Qed.
 
   Lemma choice_sound_r F G rb : sound G rb -> sound (choice_res F G) rb.
   Proof.
-    intros HG S s r s' Hok Hin Hex. unfold choice_res in *. cbn zeta in *. cbn [okf] in Hok.
+    intros HG S s r s' Hok Hin Hex. unfold choice_res in *. cbn zeta in *. rewrite okf_mkres in Hok.
     apply andb_prop in Hok. destruct Hok as [Hoka Hokb].
-    pose proof (HG S s r s' Hokb Hin Hex) as H1.
-    destruct r as [|k]; unfold in_res in *; cbn [aN aR]; [|rewrite getk_mk7]; apply wmem_union_r; exact H1.
+    pose proof (HG S s r s' Hokb Hin Hex) as H1. unfold in_res in *. rewrite getr_mkres.
+    apply wmem_union_r. exact H1.
+  Qed.
+
+  Lemma ifw_sound g F G ra rb : sound F ra -> sound G rb ->
+    sound (ifw_res g F G) (fun s => if guard_holds g (wd s) then ra s else rb s).
+  Proof.
+    intros HF HG S s r s' Hok Hin Hex. unfold ifw_res in *. cbn zeta in *. rewrite okf_mkres in Hok.
+    apply andb_prop in Hok. destruct Hok as [Hoka Hokb]. unfold in_res. rewrite getr_mkres.
+    destruct (guard_holds g (wd s)) eqn:Hg.
+    - apply wmem_union_l. apply (HF _ s r s' Hoka); [apply wmem_filter; assumption | exact Hex].
+    - apply wmem_union_r. apply (HG _ s r s' Hokb); [apply wmem_filter; [assumption | rewrite Hg; reflexivity] | exact Hex].
+  Qed.
+
+  Lemma spawn_sound F rp : sound F rp ->
+    sound (spawn_res (F [w_spawn0]))
+      (fun s => let (r, s1) := rp (mkC (cn s) w_spawn0 (tr s) (en s)) in
+                let back := fun w => mkC (cn s1) w (tr s1) (en s1) in
+                match r with
+                | RReturn v => (RNormal, back (join v (wd s1) (wd s)))
+                | RRaised k => (RRaised k, back (spawn_fail (wd s)))
+                | _ => (RRaised KOther, back (spawn_fail (wd s)))
+                end).
+  Proof.
+    intros HF S s r s' Hok Hin Hex. unfold spawn_res in *. cbn zeta in *. rewrite okf_mkres in Hok.
+    destruct (rp (mkC (cn s) w_spawn0 (tr s) (en s))) as [r1 s1] eqn:Hp.
+    assert (Hin0 : wmem (wd (mkC (cn s) w_spawn0 (tr s) (en s))) [w_spawn0] = true).
+    { cbn [wd]. apply wmem_In. left. reflexivity. }
+    pose proof (HF _ _ r1 s1 Hok Hin0 Hp) as H1. unfold in_res in *. rewrite getr_mkres.
+    set (A := F [w_spawn0]) in *.
+    assert (Hfail : wmem (spawn_fail (wd s)) (image spawn_fail S) = true) by (apply wmem_image; exact Hin).
+    destruct r1 as [|k| | |v]; inversion Hex; subst; clear Hex; cbn [wd].
+    - apply wmem_union_r. cbn [getr] in H1. rewrite (wempty_false _ _ H1). cbn [andb negb]. exact Hfail.
+    - apply wmem_union_l. cbn [getr] in H1. rewrite (wempty_false _ _ H1). exact Hfail.
+    - apply wmem_union_r. cbn [getr] in H1. rewrite (wempty_false _ _ H1). rewrite andb_false_r. cbn [andb negb]. exact Hfail.
+    - apply wmem_union_r. cbn [getr] in H1. rewrite (wempty_false _ _ H1). rewrite andb_false_r. cbn [negb]. exact Hfail.
+    - destruct v; cbn [getr] in H1.
+      + apply wmem_union_l. apply wmem_image2; assumption.
+      + apply wmem_union_r. apply wmem_image2; assumption.
   Qed.
 
   Variable chk : nat -> option bool.   (* branch outcomes fixed by a hypothesis of the theorem *)
 
-  Definition empty7 : r7 := mk7 (fun _ => 0%N).
-
   Fixpoint reach (p : prog) : wset -> ares :=
     match p with
-    | Skip => fun S => mkA S empty7 true
+    | Skip => fun S => mkres (fun r => match r with RNormal => S | _ => [] end) true
     | Step _ e => r_step e
-    | Raise _ k => fun S => mkA 0%N (mk7 (fun k' => if ekind_eqb k' k then S else 0%N)) true
+    | Raise _ k => fun S => mkres (fun r => match r with RRaised k' => if ekind_eqb k' k then S else [] | _ => [] end) true
     | Seq a b => seq_res (reach a) (reach b)
     | Loop _ _ h body => loop_res h (reach body)
-    | Try body h reraise hs => try_res (negb reraise && has_unit body) reraise hs (reach body) (reach h)
+    | Try body h reraise hs => try_res (negb reraise && has_unit body) (reports h) reraise hs (reach body) (reach h)
     | Choice id a b =>
         match chk id with
         | Some true => reach a
         | Some false => reach b
         | None => choice_res (reach a) (reach b)
         end
+    | Break => fun S => mkres (fun r => match r with RBreak => S | _ => [] end) true
+    | Continue => fun S => mkres (fun r => match r with RContinue => S | _ => [] end) true
+    | Return v => fun S => mkres (fun r => match r, v with
+                                           | RReturn VPath, VPath => S | RReturn VNone, VNone => S | _, _ => [] end) true
+    | IfW g a b => ifw_res g (reach a) (reach b)
+    | Spawn _ p => spawn_res (reach p [w_spawn0])
     end.
 
-  Variable cnt : nat -> nat.
-  Variable ch : nat -> bool.
-  Hypothesis chk_ok : forall id b, chk id = Some b -> ch id = b.
+  Variable cnt : nat -> nat -> nat.
+  Variable ch : nat -> nat -> bool.
+  Hypothesis chk_ok : forall id b, chk id = Some b -> forall n, ch id n = b.
 
   Theorem reach_sound : forall p, sound (reach p) (exec cnt ch f p).
   Proof.
-    induction p as [|l e|l k|a IHa b IHb|id l h body IHbody|body IHbody h IHh reraise hs|id a IHa b IHb].
-    - intros S s r s' _ Hin Hex. cbn in Hex. inversion Hex; subst. unfold in_res. cbn. exact Hin.
+    induction p as [|l e|l k|a IHa b IHb|id l h body IHbody|body IHbody h IHh reraise hs|id a IHa b IHb
+                    | | |v|g a IHa b IHb|l p IHp].
+    - intros S s r s' _ Hin Hex. cbn in Hex. inversion Hex; subst. unfold in_res. cbn [reach]. rewrite getr_mkres. exact Hin.
     - exact (step_sound l e).
-    - intros S s r s' _ Hin Hex. cbn in Hex. inversion Hex; subst. unfold in_res. cbn [reach aR].
-      rewrite getk_mk7. replace (ekind_eqb k k) with true by (symmetry; apply ekind_eqb_eq; reflexivity).
-      exact Hin.
+    - intros S s r s' _ Hin Hex. cbn in Hex. inversion Hex; subst. unfold in_res. cbn [reach wd]. rewrite getr_mkres.
+      replace (ekind_eqb k k) with true by (symmetry; apply ekind_eqb_eq; reflexivity). exact Hin.
     - exact (seq_sound _ _ _ _ IHa IHb).
-    - exact (loop_sound (cnt id) l h _ _ IHbody).
-    - exact (try_sound _ reraise hs _ _ _ _ IHbody IHh).
+    - intros S s r s' Hok Hin Hex. cbn [reach exec] in *.
+      exact (loop_sound (cnt id (count id (en s))) l h _ _ IHbody id S s r s' Hok Hin Hex).
+    - exact (try_sound _ _ reraise hs _ _ _ _ IHbody IHh).
     - cbn [reach exec]. destruct (chk id) as [[|]|] eqn:Hc.
-      + rewrite (chk_ok _ _ Hc). exact IHa.
-      + rewrite (chk_ok _ _ Hc). exact IHb.
-      + destruct (ch id); [exact (choice_sound_l _ _ _ IHa) | exact (choice_sound_r _ _ _ IHb)].
+      + intros S s r s' Hok Hin Hex. rewrite (chk_ok _ _ Hc) in Hex. exact (IHa S s r s' Hok Hin Hex).
+      + intros S s r s' Hok Hin Hex. rewrite (chk_ok _ _ Hc) in Hex. exact (IHb S s r s' Hok Hin Hex).
+      + intros S s r s' Hok Hin Hex. destruct (ch id (cn s)).
+        * exact (choice_sound_l _ _ _ IHa S s r s' Hok Hin Hex).
+        * exact (choice_sound_r _ _ _ IHb S s r s' Hok Hin Hex).
+    - intros S s r s' _ Hin Hex. cbn in Hex. inversion Hex; subst. unfold in_res. cbn [reach]. rewrite getr_mkres. exact Hin.
+    - intros S s r s' _ Hin Hex. cbn in Hex. inversion Hex; subst. unfold in_res. cbn [reach]. rewrite getr_mkres. exact Hin.
+    - intros S s r s' _ Hin Hex. cbn in Hex. inversion Hex; subst. unfold in_res. cbn [reach]. rewrite getr_mkres.
+      destruct v; exact Hin.
+    - exact (ifw_sound g _ _ _ _ IHa IHb).
+    - exact (spawn_sound _ _ IHp).
   Qed.
 End Analysis.
 
 (* ---------------------------------------------------------------- the checker and its soundness *)
-Definition holds_on (S : wset) (P : world -> bool) : bool :=
-  forallb (fun w => if wmem w S then P w else true) all_worlds.
+Definition holds_on (S : wset) (P : world -> bool) : bool := forallb P S.
 Lemma holds_on_spec S P w : holds_on S P = true -> wmem w S = true -> P w = true.
+Proof. unfold holds_on. rewrite forallb_forall. intros H Hw. apply H. apply wmem_In. exact Hw. Qed.
+
+Definition check_from (ks : list ekind) (chk : nat -> option bool) (p : prog) (S0 : wset)
+                      (P : res -> world -> bool) : bool :=
+  let a := reach ks chk p S0 in
+  okf a && forallb (fun r => holds_on (getr r a) (P r)) all_res.
+
+Definition faults_in (ks : list ekind) (f : nat -> fault) : Prop :=
+  forall i, match f i with FNone => True | FBefore k => In k ks | FPartial k => In k ks end.
+
+Theorem check_from_sound ks chk p S0 P :
+  check_from ks chk p S0 P = true ->
+  forall cnt ch f s0 r s,
+    faults_in ks f ->
+    (forall id b, chk id = Some b -> forall n, ch id n = b) ->
+    wmem (wd s0) S0 = true ->
+    exec cnt ch f p s0 = (r, s) ->
+    P r (wd s) = true.
 Proof.
-  unfold holds_on. rewrite forallb_forall. intros H Hw. specialize (H w (all_worlds_complete w)).
-  rewrite Hw in H. exact H.
+  unfold check_from. intros H cnt ch f s0 r s Hf Hchk Hin Hex.
+  apply andb_prop in H. destruct H as [Hok HR].
+  pose proof (reach_sound ks f Hf chk cnt ch Hchk p _ _ r s Hok Hin Hex) as Hr. unfold in_res in Hr.
+  rewrite forallb_forall in HR. exact (holds_on_spec _ _ _ (HR r (all_res_complete r)) Hr).
 Qed.
 
 Definition check (ks : list ekind) (chk : nat -> option bool) (p : prog) (init : world -> bool)
-                 (P : res -> world -> bool) : bool :=
-  let a := reach ks chk p (of_pred init) in
-  okf a && holds_on (aN a) (P RNormal) && forallb (fun k => holds_on (getk k (aR a)) (P (RRaised k))) all_kinds.
+                 (P : res -> world -> bool) : bool := check_from ks chk p (of_pred init) P.
 
 Theorem check_sound ks chk p init P :
   check ks chk p init P = true ->
   forall cnt ch f w0 r s,
-    (forall i, match f i with FNone => True | FBefore k => In k ks | FPartial k => In k ks end) ->
-    (forall id b, chk id = Some b -> ch id = b) ->
-    init w0 = true ->
-    exec cnt ch f p (mkC 0 w0 []) = (r, s) ->
+    faults_in ks f ->
+    (forall id b, chk id = Some b -> forall n, ch id n = b) ->
+    aux_clear w0 = true -> init w0 = true ->
+    exec cnt ch f p (mkC 0 w0 [] []) = (r, s) ->
     P r (wd s) = true.
 Proof.
-  unfold check. intros H cnt ch f w0 r s Hf Hchk Hinit Hex.
-  apply andb_prop in H. destruct H as [H HR]. apply andb_prop in H. destruct H as [Hok HN].
-  assert (Hin : wmem (wd (mkC 0 w0 [])) (of_pred init) = true).
-  { cbn [wd]. apply wmem_of_pred. exact Hinit. }
-  pose proof (reach_sound ks f Hf chk cnt ch Hchk p _ _ r s Hok Hin Hex) as Hr.
-  destruct r as [|k]; cbn [in_res] in Hr.
-  - exact (holds_on_spec _ _ _ HN Hr).
-  - rewrite forallb_forall in HR. exact (holds_on_spec _ _ _ (HR k (all_kinds_complete k)) Hr).
+  unfold check. intros H cnt ch f w0 r s Hf Hchk Haux Hinit Hex.
+  apply (check_from_sound _ _ _ _ _ H cnt ch f (mkC 0 w0 [] []) r s Hf Hchk); [|exact Hex].
+  cbn [wd]. apply wmem_of_pred; assumption.
 Qed.
 
-Lemma any_kind f : forall i : nat, match f i with FNone => True | FBefore k => In k all_kinds | FPartial k => In k all_kinds end.
+Lemma any_kind f : faults_in all_kinds f.
 Proof. intros i. destruct (f i) as [|k|k]; [exact I | destruct k; cbn; tauto | destruct k; cbn; tauto]. Qed.
 
+(* every exception class except TimeoutError *)
+Definition worker_kinds : list ekind := [KRuntime; KValue; KOS; KMemory; KOther; KBase].
+Definition no_timeout (f : nat -> fault) : Prop :=
+  forall i, f i <> FBefore KTimeout /\ f i <> FPartial KTimeout.
+
+Lemma no_timeout_kinds f : no_timeout f -> faults_in worker_kinds f.
+Proof.
+  intros H i. destruct (H i) as [H1 H2]. destruct (f i) as [|k|k].
+  - exact I.
+  - destruct k; cbn; try tauto; exfalso; apply H1; reflexivity.
+  - destruct k; cbn; try tauto; exfalso; apply H2; reflexivity.
+Qed.
+
 Definition no_chk : nat -> option bool := fun _ => None.
+Lemma no_chk_ok (ch : nat -> nat -> bool) : forall id b, no_chk id = Some b -> forall n, ch id n = b.
+Proof. intros id b H. discriminate H. Qed.
+
 Definition not_ok (w : world) : bool := negb (status_eqb (st w) SOk).
 Definition four (w : world) : bool := ex w && co w && so w && ix w.
 Definition ok_and_four (w : world) : bool := status_eqb (st w) SOk && four w.
-Definition inv_init (w : world) : bool := invb w && negb (lost w).
-Definition fresh (w : world) : bool := negb (lost w).
-
-Definition P_inv (r : res) (w : world) : bool := invb w.
-Definition P_end (r : res) (w : world) : bool := match r with RNormal => ok_and_four w | _ => true end.
-Definition P_fail (r : res) (w : world) : bool := match r with RNormal => true | _ => not_ok w end.
-Definition P_four (r : res) (w : world) : bool := match r with RNormal => four w | _ => true end.
+Definition ok_and_good (w : world) : bool := status_eqb (st w) SOk && goodb w.
+Definition any_w (w : world) : bool := true.
 
 Lemma invb_spec w : invb w = true -> st w = SOk ->
   ex w = true /\ co w = true /\ so w = true /\ ix w = true.
@@ -406,3 +620,14 @@ Qed.
 
 Lemma four_spec w : four w = true -> ex w = true /\ co w = true /\ so w = true /\ ix w = true.
 Proof. unfold four. intros H. repeat (apply andb_prop in H; destruct H as [H ?]). auto. Qed.
+
+Lemma goodb_spec w : goodb w = true ->
+  ex w = true /\ so w = true /\ ix w = true /\ lost w = false /\ (co w = true \/ rep w = true).
+Proof.
+  unfold goodb. intros H. repeat (apply andb_prop in H; destruct H as [H ?]).
+  apply negb_true_iff in H1. apply orb_prop in H0. auto.
+Qed.
+
+Lemma invb_rep_spec w : invb_rep w = true -> st w = SOk ->
+  ex w = true /\ so w = true /\ ix w = true /\ lost w = false /\ (co w = true \/ rep w = true).
+Proof. unfold invb_rep. intros H Hs. rewrite Hs in H. cbn in H. apply goodb_spec. exact H. Qed.
